@@ -233,9 +233,18 @@ def c02_codec(ctx, node, mname, meta=None, indents=(-1, None, 0, 3)):
         ok, g = ctx.call(codec.decode, s, clause='decode')
         if not ok:
             continue
+        if list(g.metadata.items()) != list((meta or {}).items()):
+            ctx.fail('decode(format(t)):metadata-differs', mech=f'indent={ind}',
+                     detail={'s': s[:400], 'got': dict(g.metadata), 'want': dict(meta or {})},
+                     payload=payload(node, mname, meta=meta))
         ok, s2 = ctx.call(codec.encode, g, indent=ind, clause='encode')
         if not ok:
             continue
+        lines2 = [ln for ln in s2.split('\n') if ln.startswith('# ::')]
+        if len(lines2) != len(meta or {}):
+            ctx.fail('encode:metadata-lines-lost', mech=f'indent={ind}',
+                     detail={'encoded': s2[:400], 'want_keys': list((meta or {}).keys())},
+                     payload=payload(node, mname, meta=meta))
         want = penman.format(Tree(T.norm_tree(node), metadata=dict(meta or {})), indent=ind)
         if s2 != want:
             ctx.fail('encode(decode(s))!=normal-form', mech=f'indent={ind}',
@@ -247,6 +256,34 @@ def c02_codec(ctx, node, mname, meta=None, indents=(-1, None, 0, 3)):
         if ok and s3 != s2:
             ctx.fail('penman.encode!=codec.encode', detail={'s': s[:300]},
                      payload=payload(node, mname, meta=meta))
+
+
+def c02_text(ctx, node, mname, rng):
+    """encode(decode(s)) for a text whose metadata comes from hand-written comment lines: the
+    metadata written back is what the reference reading of those lines says"""
+    from pmon.gen import strings as S
+    from pmon.ref import lexer as R
+    _, model, rm, _ = M.get(mname)
+    lines = [S.comment_line(rng) for _ in range(rng.randrange(1, 4))]
+    s = '\n'.join(lines) + '\n' + penman.format(Tree(node), indent=rng.choice([None, -1]))
+    try:
+        _, ref_meta = R.ref_parse(s)
+    except R.Reject:
+        return
+    ok, g = ctx.call(penman.decode, s, model=model, clause='decode(text)')
+    if not ok:
+        return
+    ok, s2 = ctx.call(penman.encode, g, model=model, clause='encode(decode(text))')
+    if not ok:
+        return
+    want = penman.format(Tree(T.norm_tree(node), metadata=dict(ref_meta)))
+    body = lambda x: [ln for ln in x.split('\n') if not ln.startswith('# ::')]
+    got_meta = [ln for ln in s2.split('\n') if ln.startswith('# ::')]
+    want_meta = ['# ::{}{}'.format(k, ' ' + v if v else v) for k, v in ref_meta.items()]
+    if got_meta != want_meta or body(s2) != body(want):
+        ctx.fail('encode(decode(text)):metadata-or-layout', mech='metadata' if got_meta != want_meta else 'layout',
+                 detail={'text': s[:400], 'got': s2[:400], 'want_metadata_lines': want_meta},
+                 payload=['text', {'s': s, 'model': mname}])
 
 
 def c14(ctx, node, mname):
